@@ -41,6 +41,19 @@ func (p *Prog) recovering(fn *ssa.Function) (bool, string) {
 	return false, ""
 }
 
+// repanics: the recovery handler contains a panic of its own (it re-raises
+// some of the values it recovers, e.g. runtime errors).
+func repanics(h *ssa.Function) bool {
+	for _, b := range h.Blocks {
+		for _, ins := range b.Instrs {
+			if _, ok := ins.(*ssa.Panic); ok {
+				return true
+			}
+		}
+	}
+	return false
+}
+
 func (p *Prog) closureRecovers(fn *ssa.Function, mc *ssa.MakeClosure, cl *ssa.Function) (bool, string) {
 	var rec *ssa.Call
 	for _, b := range cl.Blocks {
@@ -54,6 +67,9 @@ func (p *Prog) closureRecovers(fn *ssa.Function, mc *ssa.MakeClosure, cl *ssa.Fu
 	}
 	if rec == nil {
 		return false, ""
+	}
+	if repanics(cl) {
+		return false, "" // the handler lets some recovered values through
 	}
 	// the named error result of fn must be among the captured variables and
 	// be assigned a sentinel-wrapping error on the r != nil branch.
@@ -127,6 +143,9 @@ func (p *Prog) namedRecovers(fn *ssa.Function, d *ssa.Defer, rf *ssa.Function) (
 		return false, ""
 	}
 	errP := rf.Params[errIdx]
+	if repanics(rf) {
+		return false, ""
+	}
 	var rec *ssa.Call
 	for _, b := range rf.Blocks {
 		for _, ins := range b.Instrs {
